@@ -14,9 +14,9 @@ CFG = {
                             thorough={"enc": 60000, "dec": 150000, "mseq": 5000, "conc": 5000}),
                 ops=("enc", "dec"), kinds=["dec", "enc", "junk", "mut"], actions=("EncCase", "DecCase", "MutCase", "JunkCase")),
     "C19": dict(quick="MCKeyID_q19", thorough="MCKeyID_t19",
-                random=dict(quick={"cert": 15000, "prins": 1000, "shim": 1440}, thorough={"cert": 200000, "prins": 5000, "shim": 14400}),
-                ops=("cert", "prins", "shim"), kinds=["cert", "certjunk", "nil", "prins", "shim"],
-                actions=("CertCase", "CertJunkCase", "NilCase", "PrinsCase", "ShimCase")),
+                random=dict(quick={"cert": 15000, "certpair": 1500, "prins": 1000, "shim": 1440}, thorough={"cert": 200000, "certpair": 20000, "prins": 5000, "shim": 14400}),
+                ops=("cert", "prins", "shim"), kinds=["cert", "certjunk", "certpair", "nil", "prins", "shim"],
+                actions=("CertCase", "CertJunkCase", "CertPairCase", "NilCase", "PrinsCase", "ShimCase")),
 }
 # the trace module needs no value space: it only applies the spec's operators to recorded values
 TRACE_CFG = "SPECIFICATION TraceSpec\nCONSTANTS\n  TPs = {1}\n  Usages = {0}\n  Vers = {1}\n  Kinds = {}"
@@ -52,7 +52,7 @@ def describe(rec):
             txt = info["text"]
     fields = {"enc": ("k", "ok", "rep", "dok", "dk", "present", "sin", "sout", "pan"),
               "dec": ("ok", "dk", "present", "pan", "rep", "ok1", "dk1", "sout", "s1"),
-              "cert": ("nil", "ok", "dk", "opt", "ty", "lok", "label", "tid", "pin", "pout", "pafter", "pan"),
+              "cert": ("nil", "rep", "ok", "dk", "present", "opt", "ty", "lok", "label", "tid", "pin", "pout", "pafter", "pan"),
               "prins": ("tyin", "pin", "pout", "pafter", "rep", "pfirst", "pfirst2", "pan"),
               "shim": ("ok", "dk", "opt", "tid", "ocmt", "found", "cmt", "pan")}.get(e["op"], tuple(e))
     short = {k: e[k] for k in fields}
